@@ -865,6 +865,45 @@ def gen_core(repo):
     return files, body
 
 
+def gen_frame_io(repo):
+    """Frame::read / Frame::write, recognised as wholes (token for token, layout and comments aside): what std's
+    BufReader::read_until and Write::write_all do underneath is Model/Io.lean, written from their documented contracts."""
+    path = "libs/core/src/frame.rs"
+    src = strip_comments(open(os.path.join(repo, path)).read())
+    rd = squash(fn_body(src, r"pub\s+fn\s+read\s*<\s*R\s*:\s*Read\s*>\s*\(\s*mut\s+reader\s*:\s*&mut\s+R\s*\)\s*->\s*Result<Self,\s*FrameError>\s*\{", "Frame::read"))
+    m = re.fullmatch(r"letmutbuf_reader=BufReader::with_capacity\((\d+),&mutreader\);"
+                     r"letmutdata=Vec::<u8>::new\(\);"
+                     r"let_=buf_reader\.read_until\(b'(\\?.)',&mutdata\)\?;"
+                     r"letframe=Frame::from_bytes\(&data\)\?;"
+                     r"Ok\(frame\)", rd)
+    if not m:
+        raise TranslateError("Frame::read is not the pinned five statements (one-byte BufReader, read_until, from_bytes, Ok)")
+    cap = int(m.group(1))
+    lit = m.group(2)
+    if lit.startswith("\\"):
+        delim = {"n": 10, "r": 13, "t": 9, "0": 0}.get(lit[1])
+    else:
+        delim = ord(lit)
+    if delim is None:
+        raise TranslateError("Frame::read: delimiter literal not understood")
+    wr = squash(fn_body(src, r"pub\s+fn\s+write\s*<\s*W\s*:\s*Write\s*>\s*\(\s*&self\s*,\s*writer\s*:\s*&mut\s+W\s*\)\s*->\s*Result<\(\),\s*FrameError>\s*\{", "Frame::write"))
+    if wr != "writer.write_all(&self.to_bytes_with_newline())?;Ok(())":
+        raise TranslateError("Frame::write is not `writer.write_all(&self.to_bytes_with_newline())?; Ok(())`")
+    out = ["/-- `Frame::read` is the pinned five statements: a `BufReader` of this capacity over the reader … -/",
+           "def readBufferCapacity : Nat := %d" % cap,
+           "/-- … `read_until` this delimiter into a fresh vector, `?`; `Frame::from_bytes` of the line, `?`; `Ok(frame)`. -/",
+           "def readDelimiter : UInt8 := %d" % delim,
+           "/-- `Frame::write` is `writer.write_all(&self.to_bytes_with_newline())?; Ok(())`. -/",
+           "def writeIsWriteAllOfEncodingWithNewline : Bool := true", ""]
+    return [path], "\n".join(out)
+
+
+def gen_serial_bus(repo):
+    import translate_serial
+    gen_serial(repo)   # the tables it applies must be readable too (their file is regenerated with topic Serial)
+    return translate_serial.gen_serial_bus(repo)
+
+
 TOPICS = {
     "Core": (gen_core, ["Flipdot.Tie.CoreSupport"], "Flipdot.Generated.Core"),
     "VSignFull": (gen_vsign_full, ["Flipdot.Tie.VSignSupport"], "Flipdot.Generated.VSignFull"),
@@ -873,6 +912,8 @@ TOPICS = {
     "SignType": (gen_signtype, ["Flipdot.Model.SignType"], "Flipdot.Generated.SignType"),
     "Serial": (gen_serial, ["Flipdot.Tie.Kind"], "Flipdot.Generated.Serial"),
     "VSign": (gen_vsign, ["Flipdot.Tie.Kind", "Flipdot.Tie.Handler"], "Flipdot.Generated.VSign"),
+    "FrameIo": (gen_frame_io, ["Flipdot.Model.Io"], "Flipdot.Generated.FrameIo"),
+    "SerialBus": (gen_serial_bus, ["Flipdot.Generated.Serial", "Flipdot.Tie.SerialSupport"], "Flipdot.Generated.SerialBus"),
 }
 
 
